@@ -7,6 +7,7 @@ import (
 	"go/token"
 	"go/types"
 	"os"
+	"strconv"
 	"strings"
 
 	"golang.org/x/tools/go/ssa"
@@ -68,7 +69,7 @@ func (e *Exec) evalSpecArgs(st *State, fn *ssa.Function, args []Value, assertMod
 		}
 		alts = append(alts, And(delta, r))
 		if os.Getenv("GOVC_DEBUG") == "3" && e.discovery == 0 && fn.Name() == os.Getenv("GOVC_SPEC") {
-			fmt.Fprintf(os.Stderr, "SPECPATH %s: delta=%s r=%s dead=%v\n", fn.Name(), showTerm(delta, 4), showTerm(r, 4), o.st.dead)
+			fmt.Fprintf(os.Stderr, "SPECPATH %s: delta=%s r=%s dead=%v\n", fn.Name(), showTerm(delta, dbgDepth()), showTerm(r, dbgDepth()), o.st.dead)
 		}
 		for _, f := range o.st.facts[nf:] {
 			if !f.hasBound {
@@ -380,6 +381,9 @@ func (e *Exec) callContract(st *State, fr *Frame, sp *FnSpec, fn *ssa.Function, 
 	if os.Getenv("GOVC_DEBUG") != "" && e.discovery == 0 {
 		fmt.Fprintf(os.Stderr, "DEBUG: contract call %s in %s dead=%v pc=%d\n", sp.Target, e.curFn, st.dead, len(st.pc))
 	}
+	if e.discovery == 0 && e.specMode == 0 && !sp.Trusted && e.usedSpecs != nil {
+		e.usedSpecs[sp] = true
+	}
 	params := e.paramMap(fn, args)
 	pre := st.Clone()
 	prePC := st.PC()
@@ -432,7 +436,7 @@ func (e *Exec) callContract(st *State, fr *Frame, sp *FnSpec, fn *ssa.Function, 
 			fmt.Fprintf(os.Stderr, "DEBUG: state died while evaluating ensures %s of %s\n", c.Name, sp.Target)
 		}
 		if os.Getenv("GOVC_DEBUG") == "4" && e.discovery == 0 {
-			fmt.Fprintf(os.Stderr, "ASSUME %s.%s = %s\n", sp.Target, c.Name, showTerm(t, 3))
+			fmt.Fprintf(os.Stderr, "ASSUME %s.%s = %s\n", sp.Target, c.Name, showTerm(t, dbgDepth()))
 		}
 		if t == False && os.Getenv("GOVC_DEBUG") != "" {
 			fmt.Fprintf(os.Stderr, "DEBUG: assuming ensures %s of %s is literally false in %s\n", c.Name, sp.Target, e.curFn)
@@ -471,8 +475,22 @@ func (e *Exec) callIfaceContract(st *State, fr *Frame, sp *IfaceSpec, cc *ssa.Ca
 	st.NewBase()
 	var rs []Value
 	for i := 0; i < sig.Results().Len(); i++ {
-		v := freshValue("ret."+sp.Method, sig.Results().At(i).Type())
-		e.assumeValid(st, sig.Results().At(i).Type(), v)
+		rt := sig.Results().At(i).Type()
+		v := freshValue("ret."+sp.Method, rt)
+		if sp.Pure {
+			// a function of the receiver, its abstract state and the arguments
+			in := []*Term{recv.Tid, recv.Ref, Select(st.heap("ghost:absver", ArrSort(SInt, SInt)), recv.Ref)}
+			for j := 0; j < sig.Params().Len(); j++ {
+				in = append(in, flatten(sig.Params().At(j).Type(), args[j])...)
+			}
+			cs := components(rt)
+			ts := make([]*Term, len(cs))
+			for k, c := range cs {
+				ts[k] = App(fmt.Sprintf("pure:%s.%s.%d%s", sp.Iface, sp.Method, i, c.suffix), c.sort, in...)
+			}
+			v = unflatten(rt, &ts)
+		}
+		e.assumeValid(st, rt, v)
 		rs = append(rs, v)
 		params[sig.Results().At(i).Name()] = v
 		params[fmt.Sprintf("ret%d", i)] = v
@@ -531,7 +549,9 @@ func (e *Exec) VerifyFunction(sp *FnSpec, prop string) (err error) {
 		}
 	}()
 	e.curFn = fnName(fn)
-	e.curLabels = []string{prop}
+	if prop != "*" {
+		e.curLabels = []string{prop}
+	}
 	e.paths = 0
 	if e.pruner != nil {
 		e.pruneQueries += e.pruner.queries
@@ -641,6 +661,9 @@ func (e *Exec) VerifyFunction(sp *FnSpec, prop string) (err error) {
 }
 
 func hasProp(labels []string, prop string) bool {
+	if prop == "*" {
+		return true
+	}
 	for _, l := range labels {
 		if l == prop || strings.HasPrefix(l, prop+".") {
 			return true
@@ -743,6 +766,7 @@ func (e *Exec) selectInstr(st *State, fr *Frame, x *ssa.Select) []Outcome {
 			if j == i {
 				if e.isLockChan(s.Chan) {
 					e.lockAcquire(s2, fr, ch, x.Pos())
+					e.interfereAt(s2, fr, s.Chan)
 					rs = append(rs, True)
 				} else {
 					v := freshValue("recv", elem)
@@ -772,6 +796,7 @@ func (e *Exec) chanRecv(st *State, fr *Frame, x *ssa.UnOp, ch Value) Value {
 		panic(unsupported("channel receive (only declared lock channels are modelled)"))
 	}
 	e.lockAcquire(st, fr, ch.(*Term), x.Pos())
+	e.interfereAt(st, fr, x.X)
 	if x.CommaOk {
 		return &TupleV{Vs: []Value{True, True}}
 	}
@@ -794,4 +819,11 @@ func (e *Exec) sliceEmbeddedArray(st *State, fr *Frame, a *PtrV, x *ssa.Slice, g
 	sl := e.newSlice(st, at.Elem(), n, n)
 	st.setArrayOf(at.Elem(), comp{"", scalarSort(at.Elem())}, sl.Arr, av.Data)
 	return &SliceV{Arr: sl.Arr, Off: lo, Len: BVSub(hi, lo), Cap: BVSub(n, lo), Elem: at.Elem()}
+}
+
+func dbgDepth() int {
+	if n, err := strconv.Atoi(os.Getenv("GOVC_DEPTH")); err == nil {
+		return n
+	}
+	return 4
 }
